@@ -32,10 +32,10 @@ ASSUMPTIONS = [
 PRE = "Open Scope string_scope."
 MODS = ["good", "bad", "missing", "syn", "nest"]
 W_NAMES = ["top", "nested1", "nested2", "nested3", "fiber", "try_finally", "catch", "finally", "finally_ret", "classdef",
-           "classdef_nested", "capture", "builtin_in_try", "capture_in_caller_fiber"]
+           "classdef_nested", "capture", "builtin_in_try", "capture_in_caller_fiber", "fiber_waiting"]
 # families: which later constructs are "of the same kind" as a failing one
 FAM_OF_W = {0: "call", 1: "call", 2: "call", 3: "call", 4: "fiber", 5: "try", 6: "try", 7: "try", 8: "try", 9: "class",
-            10: "class", 11: "capture", 12: "try", 13: "capture"}
+            10: "class", 11: "capture", 12: "try", 13: "capture", 14: "fiber"}
 
 
 def z(n):
@@ -51,7 +51,7 @@ def sn_class(c, n): return (4, c, z(n))
 def sn_use(c): return (5, c)
 def sn_syntax(pre): return (6, int(pre))
 def sn_throw(w, d=None): return (7, w) if d is None else (7, w, d[0], z(d[1]))
-SN_TRYFIN, SN_TRYCATCH, SN_FIBEROK, SN_CAPOK, SN_USELEAK, SN_RESET = (8,), (9,), (10,), (11,), (13,), (16,)
+SN_TRYFIN, SN_TRYCATCH, SN_FIBEROK, SN_CAPOK, SN_USELEAK, SN_RESET, SN_USEFIBER = (8,), (9,), (10,), (11,), (13,), (16,), (17,)
 def sn_range(k): return (12, k)
 def sn_import(m): return (14, m)
 def sn_usemod(m): return (15, m)
@@ -67,9 +67,9 @@ def all_snippets():
     for c in (0, 1):
         res += [sn_class(c, 7), sn_use(c)]
     res += [sn_syntax(False), sn_syntax(True)]
-    for w in range(14):
+    for w in range(15):
         res += [sn_throw(w), sn_throw(w, (0, 9))]
-    res += [SN_TRYFIN, SN_TRYCATCH, SN_FIBEROK, SN_CAPOK, SN_USELEAK, sn_range(1), sn_range(2), sn_range(3)]
+    res += [SN_TRYFIN, SN_TRYCATCH, SN_FIBEROK, SN_CAPOK, SN_USELEAK, SN_USEFIBER, sn_range(1), sn_range(2), sn_range(3)]
     for m in range(5):
         res += [sn_import(m), sn_usemod(m)]
     res.append(SN_RESET)
@@ -101,7 +101,7 @@ def same_kind(fam, s):
     if fam == "call":
         return s[0] == 3 or (s[0] == 7 and FAM_OF_W[s[1]] == "call")
     if fam == "fiber":
-        return s == SN_FIBEROK or (s[0] == 7 and s[1] == 4)
+        return s in (SN_FIBEROK, SN_USEFIBER) or (s[0] == 7 and s[1] in (4, 14))
     if fam == "capture":
         return s in (SN_USELEAK, SN_CAPOK) or (s[0] == 7 and s[1] in (11, 13))
     if fam == "syntax":
@@ -138,7 +138,7 @@ def gen_history(rng, pool, maxlen=8):
     if style == "leak":
         h = [rng.choice(defs), sn_throw(rng.choice([11, 13, 13]), rng.choice([None, (0, 4)]))]
         while len(h) < n:
-            h.append(rng.choice([SN_USELEAK, SN_USELEAK, SN_CAPOK, sn_throw(11), sn_throw(13), rng.choice(uses), SN_RESET, rng.choice(pool), sn_range(2)]))
+            h.append(rng.choice([SN_USELEAK, SN_USELEAK, SN_CAPOK, sn_throw(11), sn_throw(13), sn_throw(14), SN_USEFIBER, rng.choice(uses), SN_RESET, rng.choice(pool), sn_range(2)]))
         return h
     if style == "reset":
         h = [rng.choice(pool) for _ in range(rng.randint(1, 4))] + [SN_RESET]
@@ -267,7 +267,7 @@ def coq_cases(hists, core, tag):
         if len(rows) != len(h) or any(len(r) != 4 for r in rows):
             res.append(None)
             continue
-        names = {"-": "-", "I": "failed_import_poisons_module"}
+        names = {"-": "-", "I": "failed_import_poisons_module", "W": "waiting_fiber_left_called"}
         res.append({"items": " ".join(RENDER[s] for s in h), "spec": [r[0] for r in rows],
                     "mech": [(r[0] if r[1] == "=" else r[1]) + ";cs=" + r[2] for r in rows], "known": [names[r[3]] for r in rows]})
     return res
@@ -355,6 +355,8 @@ def completed_definitions(s):
             parts.append("var g%d = %d;" % (s[2], s[3] - 100))
         if s[1] in (11, 13):
             parts.append(CAPTURE_DEF_41)
+        if s[1] == 14:
+            parts.append("var fw = Fiber.new(|| { return 1; }); fw.call();")   # the run is over: fw is a finished fiber
         return " ".join(parts) or None
     return None
 
@@ -651,7 +653,7 @@ def run(ctx):
     for h in hists:
         for s in h:
             key = {0: "var", 1: "print", 2: "fn", 3: "call", 4: "class", 5: "use_class", 6: "compile_error", 8: "try_finally_ok",
-                   9: "try_catch_ok", 10: "fiber_ok", 11: "capture_ok", 12: "range", 13: "use_closure", 16: "RESET"}.get(s[0])
+                   9: "try_catch_ok", 10: "fiber_ok", 11: "capture_ok", 12: "range", 13: "use_closure", 16: "RESET", 17: "use_fiber"}.get(s[0])
             if s[0] == 7:
                 key = "uncaught:" + W_NAMES[s[1]]
             elif s[0] == 14:
@@ -664,7 +666,7 @@ def run(ctx):
     ctx.cov.update({
         "evaluations": len(hists) * 2 + meta + fresh + ref,
         "distinct_nontrivial": len(nontriv),
-        "rule": "histories of <= 9 snippets of the mini-language ReplLang.v (definitions, uses, compile errors, uncaught errors from 14 places, "
+        "rule": "histories of <= 9 snippets of the mini-language ReplLang.v (definitions, uses, compile errors, uncaught errors from 15 places, "
                 "try/finally and fibers that complete, imports of a good/throwing/missing/uncompilable/nested module, RESET): every "
                 "(failing snippet, any snippet) pair alone and after a block of definitions, plus random histories in 6 styles; each history "
                 "runs on ONE Vm in the debug and the release build. non-trivial = the history contains a snippet that fails ON THE "
